@@ -63,8 +63,24 @@ def broken(fn, kind):
     return text          # model-processor: the text is fine, the processor rejects the file
 
 
-class Boom(Exception):
-    pass
+class Boom(ValueError):
+    """what a processor may raise instead of a TextXError: an ordinary exception"""
+
+
+class BoomInterrupt(KeyboardInterrupt):
+    """... or something that is not even an Exception (interrupt / cancellation)"""
+
+
+EXCS = ['textx', 'exception', 'interrupt']
+
+
+def raise_as(exc, msg):
+    from textx.exceptions import TextXSemanticError
+    if exc == 'exception':
+        raise Boom(msg)
+    if exc == 'interrupt':
+        raise BoomInterrupt(msg)
+    raise TextXSemanticError(msg)
 
 
 def build_mm(pi, global_repo, reject):
@@ -81,12 +97,12 @@ def build_mm(pi, global_repo, reject):
 
     def item_proc(it):
         if it.boom:
-            raise TextXSemanticError('object processor rejects %s' % it.name)
+            raise_as(reject.get('exc', 'textx'), 'object processor rejects %s' % it.name)
     mm.register_obj_processors({'Item': item_proc})
 
     def model_proc(model, metamodel):
         if reject.get('file') and os.path.basename(model._tx_filename or '') == reject['file']:
-            raise TextXSemanticError('model processor rejects %s' % reject['file'])
+            raise_as(reject.get('exc', 'textx'), 'model processor rejects %s' % reject['file'])
     mm.register_model_processor(model_proc)
     return mm
 
@@ -114,16 +130,18 @@ def outcome_of(mm, path):
         return ('file-not-found', os.path.basename(str(e.filename)))
     except OSError as e:
         return ('os-error', type(e).__name__)
+    except (Boom, BoomInterrupt) as e:
+        return ('processor-exception', '%s: %s' % (type(e).__name__, str(e)[:100]))
     except Exception as e:  # noqa
         return ('exception', '%s: %s' % (type(e).__name__, str(e)[:100]))
 
 
-def scenario(fi, ki, pi, global_repo, prior):
+def scenario(fi, ki, pi, global_repo, prior, exc='textx'):
     """one run -> list of problems"""
     tmp = tempfile.mkdtemp(prefix='c18_')
     problems = []
     fn_bad, kind = FILES[fi], KINDS[ki]
-    reject = {'file': None}
+    reject = {'file': None, 'exc': exc}
     try:
         for fn, text in GOOD.items():
             with open(os.path.join(tmp, fn), 'w') as f:
@@ -296,11 +314,13 @@ def explore(item):
         ki = pick(c, 'kind', len(KINDS))
         gr = c.branch(z3.Bool('global_repository'))
         prior = c.branch(z3.Bool('prior_successful_load'))
+        # what the rejecting processor raises: a TextXError, another exception, or an interrupt
+        exc = EXCS[pick(c, 'exception_class', len(EXCS))] if KINDS[ki].endswith('-processor') else 'textx'
         try:
-            probs = scenario(fi, ki, pi, gr, prior)
+            probs = scenario(fi, ki, pi, gr, prior, exc)
         except Exception as e:  # noqa
             probs = ['harness: %s: %s' % (type(e).__name__, e)]
-        return (fi, ki, gr, prior, probs)
+        return (fi, ki, gr, prior, probs, exc)
     outs = ctx.explore(path)
     return {'provider': PROVIDERS[pi], 'paths': ctx.paths,
             'bad': [list(o) for o in outs if o[4]], 'ok': sum(1 for o in outs if not o[4])}
@@ -317,6 +337,7 @@ def main():
                                             M._abort_model_construction)
     chk.cov['bounds'] = {'failing_file': FILES, 'failure': KINDS, 'providers': PROVIDERS,
                          'global_repository': [False, True], 'prior_successful_load': [False, True],
+                         'processor_exception_class': EXCS,
                          'import_graph': 'good -> lib.m; main -> lib.m, mid.m; mid.m -> deep.m'}
     chk.cov['outside_claim'] = ['other import graphs (cycles: see C15)', 'faults injected into scope providers (C15)',
                                 'several failing files at once', 'GlobalRepo providers']
@@ -330,7 +351,7 @@ def main():
         paths += r['paths']
         ok += r['ok']
         pi = PROVIDERS.index(r['provider'])
-        for fi, ki, gr, prior, probs in r['bad']:
+        for fi, ki, gr, prior, probs, exc in r['bad']:
             harness = [p for p in probs if p.startswith('harness')]
             if harness:
                 chk.harness_error('%s/%s/%s: %s' % (FILES[fi], KINDS[ki], r['provider'], harness[0]))
@@ -340,9 +361,10 @@ def main():
                 continue
             seen.add(key)
             chk.cov['traces_validated_against_impl'] += 1
-            chk.violation('%s in %s (%s, global repository %s, prior load %s): %s' % (
-                KINDS[ki], FILES[fi], r['provider'], gr, prior, probs[:2]),
-                {'file': fi, 'kind': ki, 'provider': pi, 'global_repo': gr, 'prior': prior})
+            chk.violation('%s%s in %s (%s, global repository %s, prior load %s): %s' % (
+                KINDS[ki], '' if exc == 'textx' else ' raising %s' % ('an ordinary exception' if exc == 'exception' else 'an interrupt'),
+                FILES[fi], r['provider'], gr, prior, probs[:2]),
+                {'file': fi, 'kind': ki, 'provider': pi, 'global_repo': gr, 'prior': prior, 'exc': exc})
         chk.sample({'provider': r['provider'], 'runs': r['paths'], 'clean': r['ok']})
     for ki in range(len(KINDS)):
         for pr in string_main_scenario(ki)[:1]:
@@ -366,5 +388,6 @@ def replay(data):
     if 'string_main' in data:
         pr = string_main_scenario(data['string_main'])
         return bool(pr), pr
-    probs = scenario(data['file'], data['kind'], data['provider'], data['global_repo'], data['prior'])
+    probs = scenario(data['file'], data['kind'], data['provider'], data['global_repo'], data['prior'],
+                     data.get('exc', 'textx'))
     return bool(probs), probs[:3]
